@@ -269,6 +269,9 @@ func (r *SparseInt8Matrix) Jacobian(f func(ConstVector) ConstVector, x_ MagicVec
      n = y.Dim()
      m = x.Dim()
     *r = *NullSparseInt8Matrix(n, m)
+  } else {
+    // the matrix may hold the entries of an earlier result
+    r.Reset()
   }
   // copy derivatives
   for i := 0; i < n; i++ {
@@ -288,6 +291,9 @@ func (r *SparseInt8Matrix) Hessian(f func(ConstVector) ConstScalar, x_ MagicVect
      n = x_.Dim()
      m = x_.Dim()
     *r = *NullSparseInt8Matrix(n, m)
+  } else {
+    // the matrix may hold the entries of an earlier result
+    r.Reset()
   }
   x := x_.CloneMagicVector()
   x.Variables(2)
